@@ -105,10 +105,42 @@ def check(P, R):
                 if dotted(c.func) in ('hmac.new', 'hmac.digest', 'base64.b64encode', 'tob'):
                     continue
                 sig_tests.append((n, c))
+    if not sig_tests:
+        # the comparison written out where a comparison function was called: `ok = not sum(.. for x, y in zip(got, expected)) and len(got) == len(expected)`
+        # followed by `if ok:` - read as a comparison function of (got, expected) with that expression as its body
+        from ..loader import Func
+        for n in g.nodes:
+            if n.kind != 'test' or not isinstance(n.ast, ast.Name):
+                continue
+            ds = rd.at(n, n.ast.id)
+            if len(ds) != 1 or ds[0].kind != 'assign' or ds[0].value is None:
+                continue
+            pairs = [x.args for x in ast.walk(ds[0].value) if isinstance(x, ast.Call) and dotted(x.func) == 'zip' and len(x.args) == 2]
+            pairs += [[x.left, x.comparators[0]] for x in ast.walk(ds[0].value) if isinstance(x, ast.Compare) and len(x.ops) == 1 and isinstance(x.ops[0], ast.Eq)]
+            for (x_, y_) in pairs:
+                if not (isinstance(x_, ast.Name) and isinstance(y_, ast.Name)):
+                    continue
+                der = [any(isinstance(y, ast.Call) and dotted(y.func) in ('hmac.new', 'hmac.digest') for y in rd.closure_nodes(a_, ds[0].node)) for a_ in (x_, y_)]
+                if der.count(True) != 1 or not (rd.same_defs(ds[0].node, n, x_.id) and rd.same_defs(ds[0].node, n, y_.id)):
+                    continue
+                fnode = ast.parse(f'def _inline_comparison({x_.id}, {y_.id}):\n    return 0\n').body[0]
+                fnode.body[0].value = T.clone(ds[0].value)
+                ast.copy_location(fnode, ds[0].stmt)
+                ast.fix_missing_locations(fnode)
+                for z in ast.walk(fnode):
+                    if hasattr(z, 'lineno'):
+                        z.lineno = ds[0].stmt.lineno
+                call_ = ast.copy_location(ast.Call(func=ast.Name(id='_inline_comparison', ctx=ast.Load()), args=[x_, y_], keywords=[]), ds[0].value)
+                call_._synth_target = Func(dec.module, f'{dec.qual}.<comparison at line {ds[0].stmt.lineno}>', fnode, None, dec)
+                sig_tests.append((n, call_))
+                break
     R.require(sig_tests, 'cookie_decode: no signature comparison found')
     for u in unp:
         un = g.node_of_stmt(u)[0]
-        dom = [(n, c) for (n, c) in sig_tests if g.edge_dominates(n, 'true', un) and not strip_not(n.ast)[1]]
+        # (the comparison call is the whole test, possibly negated: `if not _lscmp(..): return None`)
+        dom = [(n, c) for (n, c) in sig_tests
+               if g.edge_dominates(n, 'false' if (strip_not(n.ast)[1] and strip_not(n.ast)[0] is c) else 'true', un)
+               and (not strip_not(n.ast)[1] or strip_not(n.ast)[0] is c)]
         R.ob('C15.a', dec, u, bool(dom), detail='' if dom else 'the unpickler is not dominated by the passing edge of the signature comparison',
              why='a forged cookie would be deserialised', key_extra='dominance')
         # ---- b
@@ -163,6 +195,7 @@ def check(P, R):
             R.ob('C15.b', dec, u, oku, text=f'unpickled = b64decode({short(msg_arg)})', detail='' if oku else
                  'the bytes unpickled are not the decoding of the very text that was authenticated')
             # received signature: sig without its 1-byte prefix, from the same split
+            got = T.expand(dec, got, n) if isinstance(got, ast.Name) else got
             okg = isinstance(got, ast.Subscript) and isinstance(got.slice, ast.Slice) and is_const(got.slice.lower, 1) \
                 and got.slice.upper is None
             if okg:
@@ -282,9 +315,9 @@ def check_compare(P, R, dec, call):
         R.ob('C15.c', dec, call, True, text='hmac.compare_digest')
         R.ob('C15.c', dec, call, True, text='no early exit (library)', nontrivial=False)
         return
-    target = None
+    target = getattr(call, '_synth_target', None)
     for f in P.all_funcs():
-        if f.name == d and (f.parent is dec or f.parent is None and f.module is dec.module):
+        if target is None and f.name == d and (f.parent is dec or f.parent is None and f.module is dec.module):
             target = f
     if target is None:
         R.ob('C15.c', dec, call, False, detail=f'signature comparison `{d}` is neither hmac.compare_digest nor a package function')
